@@ -25,7 +25,7 @@ EXPLANATION = (
     "lies inside the grid. xmin/xmax are the extreme measured abscissae used.")
 ASSUMPTIONS = fc.STUBS + [
     "scipy.signal.butter/filtfilt are contract stubs (arbitrary array of the input's length): the plateau labelling loop is executed for real on that arbitrary array",
-    "real arithmetic; N<=6 samples (12-14 for the plateau search); plateau search with n<=3 scan samples",
+    "real arithmetic; N<=6 samples (12-14 for the plateau search); plateau search with 2 scan samples",
     "'at convergence' clauses (what the optimiser returns) are outside: contact points per pass are arbitrary reals",
 ]
 BUDGET_S = {"quick": 1200, "thorough": 3400}
@@ -35,7 +35,7 @@ QUERY_TIMEOUT_MS = {"quick": 60000, "thorough": 240000}
 def bounds(tier):
     return {"absolute": "as C04 configs (cone 4+2 k symbolic; para 3+3 retract)",
             "relative cp": "layout 4+2, vary E, 4 passes, k=1/2 (thorough: also k symbolic)",
-            "plateau": "layout 12+0 (thorough 12+2; the trend test needs >10 points), num_samples 2 (thorough: 3)",
+            "plateau": "layout 12+0 (the trend test needs >10 points), 2 scan samples (thorough: also 12+2 with k=1/2; 3 scan samples did not close within 50 min on 16 cores)",
             "outside": "longer curves; optimiser convergence; Butterworth numerics"}
 
 
@@ -61,8 +61,8 @@ def tasks(tier):
             {"name": "relcp:cone:4+2:ksym", "fn": "t_relcp",
              "args": {"model_key": "hertz_cone", "layout": "4+2", "kmode": "sym", "vary": ["E"]},
              "witnesses": ["four-passes", "later-pass-too-few-points"], "max_paths": 6000},
-            {"name": "plateau:cone:12+2:n3", "fn": "t_plateau",
-             "args": {"model_key": "hertz_cone", "layout": "12+2", "nsamp": 3, "kmode": "half"},
+            {"name": "plateau:cone:12+2:n2", "fn": "t_plateau",
+             "args": {"model_key": "hertz_cone", "layout": "12+2", "nsamp": 2, "kmode": "half"},
              "witnesses": ["plateau-done"], "max_paths": 20000},
         ]
     return ts
